@@ -1,5 +1,6 @@
 import ClusterVerif.Spec.C09
 import ClusterVerif.Spec.C09Chan
+import ClusterVerif.Spec.C09Glue
 import ClusterVerif.Gen.C09
 import Driver.Parse
 /-!
@@ -25,6 +26,9 @@ chan suite (round 8; a consumer that does not receive after every check, one met
   C09 ch cap=<c> max=<a> <op>... => <obs>...
     op   e<p> | f<p> arrival for peer p (expired / fresh)   k<peers> CheckPeers, nothing received   d<n> receive up to n alerts
     obs  k=<0|1 ErrAlertChannelFull>;<peer:stamp held by the store,..|->   d=<peer:stamp,..|->   (last token: the final drain)
+glue suite (round 8b; see harness/c09/glue.go):
+  C09 g inf <df|ds|np> <nc|err|ok> <a> <b> <ttl ms> => valid= value= exp=<zero|in|off> named= pub=<dropped|sent|error>
+  C09 g met <valid> <offset ms|ttl<d>|abs0|absmax|absmin> => exp= disc= neg=
 cadence suite:
   C09 cad <inf|ping> <ttl ms> <error pattern> => pubs=<n> late=<l>
 -/
@@ -402,6 +406,92 @@ def answerChan (ws : List String) : String :=
     | _, _, _, _ => "bad-case"
   | _ => "bad-case"
 
+
+/-! suite `glue` -/
+def showPub : Glue.Pub → String
+  | .dropped => "dropped" | .refused => "refused" | .sent => "sent" | .error => "error"
+
+def parsePub (s : String) : Option Glue.Pub :=
+  if s == "dropped" then some .dropped else if s == "sent" then some .sent
+  else if s == "error" then some .error else if s == "refused" then some .refused else none
+
+def parseExp (s : String) : Option Glue.Exp :=
+  if s == "zero" then some .zero else if s == "in" then some .inTTL else if s == "off" then some .off else none
+
+def showInf (o : Glue.InfOut) : String :=
+  "valid=" ++ (if o.valid then "1" else "0") ++ " value=" ++ (match o.value with | some v => toString v | none => "-") ++
+  " exp=" ++ (match o.exp with | .zero => "zero" | .inTTL => "in" | .off => "off") ++
+  " named=" ++ (if o.named then "1" else "0") ++ " pub=" ++ showPub o.pub
+
+def answerGlueInf (inp out : List String) : String :=
+  match inp, out with
+  | [kind, rp, a, b, ttl], [v, val, ex, nm, pb] =>
+    let r : Option (Option Glue.DiskKind × Glue.Rpc × Int × Glue.InfOut) := do
+      let disk : Option Glue.DiskKind ←
+        if kind == "df" then some (some .freeSpace) else if kind == "ds" then some (some .repoSize)
+        else if kind == "np" then some none else none
+      let a ← a.toNat?
+      let b ← b.toNat?
+      let ttl ← ttl.toNat?
+      let rpc : Glue.Rpc ← if rp == "nc" then some .noClient else if rp == "err" then some .failed
+        else if rp == "ok" then some (.ok a b) else none
+      let valid ← bool01 (← kv "valid" v)
+      let vs ← kv "value" val
+      let value : Option Nat ← if vs == "-" then some none else vs.toNat?.map some
+      let exp ← parseExp (← kv "exp" ex)
+      let named ← bool01 (← kv "named" nm)
+      let pub ← parsePub (← kv "pub" pb)
+      pure (disk, rpc, (ttl : Int), { valid := valid, value := value, exp := exp, named := named, pub := pub })
+    match r with
+    | none => "bad-case"
+    | some (disk, rpc, ttl, o) =>
+      if ttl ≤ 0 then "bad-case ttl" else
+      let arm := "arm=glue-inf-" ++ rp
+      let failed := Glue.failingOf (Glue.infClauses disk rpc ttl o)
+      if !failed.isEmpty then "propfail " ++ ",".intercalate failed ++ " " ++ arm else
+      let m := match disk with
+        | some k => Glue.diskMetric k 0 ttl rpc
+        | none => Glue.numpinMetric 0 ttl rpc
+      match Glue.interpPublish 0 m true Gen.publishProg with
+      | none => "diff " ++ arm ++ " model=publish-statements-not-recognised"
+      | some pub =>
+        let mo : Glue.InfOut := { valid := m.valid, value := m.value, exp := if m.expire == 0 then .zero else .inTTL,
+                                  named := m.named, pub := pub }
+        if mo != o then "diff " ++ arm ++ " model=" ++ showInf mo else "ok " ++ arm
+  | _, _ => "bad-case"
+
+def answerGlueMet (inp out : List String) : String :=
+  match inp, out with
+  | [v, offS], [e, d, n] =>
+    let r : Option (Bool × Int × Glue.MetOut) := do
+      let valid ← bool01 v
+      let off : Int ←
+        if offS == "abs0" || offS == "absmin" then some (-1000000000)
+        else if offS == "absmax" then some 1000000000
+        else if offS.startsWith "ttl" then ((offS.drop 3).toString).toInt?
+        else offS.toInt?
+      let ex ← bool01 (← kv "exp" e)
+      let di ← bool01 (← kv "disc" d)
+      let ng ← bool01 (← kv "neg" n)
+      pure (valid, off, { expired := ex, discard := di, ttlNeg := ng })
+    match r with
+    | none => "bad-case"
+    | some (valid, off, o) =>
+      if off == 0 then "bad-case boundary-instant" else
+      let arm := "arm=glue-met-" ++ (if off < 0 then "past" else "future") ++ (if valid then "" else "-invalid")
+      let failed := Glue.failingOf (Glue.metClauses valid off o)
+      if !failed.isEmpty then "propfail " ++ ",".intercalate failed ++ " " ++ arm else
+      let m : Glue.M := { valid := valid, value := none, expire := off }
+      let mo : Glue.MetOut := { expired := Glue.expired 0 off, discard := Glue.discard 0 m, ttlNeg := decide (Glue.getTTL 0 off < 0) }
+      if mo != o then "diff " ++ arm ++ " model=other" else "ok " ++ arm
+  | _, _ => "bad-case"
+
+def answerGlue (ws : List String) : String :=
+  match splitArrow ws with
+  | some ("inf" :: inp, out) => answerGlueInf inp out
+  | some ("met" :: inp, out) => answerGlueMet inp out
+  | _ => "bad-case"
+
 /-- answer for one case line (tokens after the leading "C09") -/
 def answer (ws : List String) : String :=
   match ws with
@@ -409,6 +499,7 @@ def answer (ws : List String) : String :=
   | "w" :: rest => answerWatch rest
   | "cad" :: rest => answerCadence rest
   | "ch" :: rest => answerChan rest
+  | "g" :: rest => answerGlue rest
   | _ => "bad-case unknown-kind"
 
 end CV.C09
